@@ -95,23 +95,21 @@ func hJSONUnmarshal(ex *Exec, c *frame, fn *ssa.Function, a []Value) Value {
 	default:
 		return ex.newError("json: unexpected end of JSON input")
 	}
-	// only *interface{} targets are modelled here; typed targets have their own handlers
-	if _, isIface := ptr.V.(Iface); !isIface {
-		if _, isLazy := ptr.V.(*Lazy); !isLazy {
-			if h := typedUnmarshal; h != nil {
-				if err, handled := h(ex, ptr, val, c); handled {
-					return err
-				}
+	// typed targets: decode according to the static type of the pointer
+	if pt, ok := target.T.Underlying().(*types.Pointer); ok {
+		if _, isIface := pt.Elem().Underlying().(*types.Interface); !isIface {
+			nv, ok := ex.decodeInto(pt.Elem(), val, c, 0)
+			if !ok {
+				return ex.newError("json: cannot unmarshal value into Go value of type " + pt.Elem().String())
 			}
-			panic(engineErr("json.Unmarshal into %T not modelled", ptr.V))
+			ex.store(ptr, nv, c)
+			return Iface{}
 		}
 	}
 	ex.store(ptr, val, c)
 	return Iface{}
 }
 
-// typedUnmarshal lets host-specific models decode into typed targets.
-var typedUnmarshal func(ex *Exec, ptr *Cell, val Value, c *frame) (Value, bool)
 
 // fromNative converts a natively decoded JSON value into engine values.
 func (ex *Exec) fromNative(x interface{}) Value {
@@ -167,6 +165,14 @@ func (ex *Exec) jsonEncodeValue(v Value, fr *frame, depth int) (Value, string) {
 }
 
 func (ex *Exec) jsonEncodeTyped(t types.Type, v Value, fr *frame, depth int) (Value, string) {
+	if t.String() == "github.com/Comcast/sheens/core.StopReason" {
+		// generated MarshalJSON: the constant's name
+		names := []string{"Done", "Limited", "InternalError", "BreakpointReached"}
+		if i, ok := v.(int64); ok && i >= 0 && int(i) < len(names) {
+			return Iface{T: types.Typ[types.String], V: names[i]}, ""
+		}
+		return nil, "invalid StopReason"
+	}
 	switch u := t.Underlying().(type) {
 	case *types.Basic:
 		switch {
@@ -257,7 +263,10 @@ func (ex *Exec) jsonEncodeTyped(t types.Type, v Value, fr *frame, depth int) (Va
 		if h := structEncoders[t.String()]; h != nil {
 			return h(ex, v.(*Struct), fr, depth)
 		}
-		panic(engineErr("json model: struct type %s not modelled", t))
+		if t.String() == "time.Time" {
+			return Iface{T: types.Typ[types.String], V: "T" + itoa(timeNS(v))}, ""
+		}
+		return ex.encodeStruct(t, v.(*Struct), fr, depth)
 	case *types.Signature, *types.Chan:
 		return nil, "unsupported type " + t.String()
 	}
